@@ -116,6 +116,10 @@ pub fn spaces(tier: Tier) -> Vec<Space<'static>> {
         whole.push("[1] ".into());
         sp.push(Space::new("whole-document strings (SSTR and the text of every D2 document)", whole.len() as u64, move |i, acc| check_value(&RVal::Str(whole[i as usize].clone()), acc)));
     }
+    {
+        let tv = refmodel::gen::tagv_docs();
+        sp.push(Space::new("tag-like payloads (bytes that look like headers, entry words, type tags) and keyword keys", tv.len() as u64, move |i, acc| check_value(&tv[i as usize], acc)));
+    }
     let max_chain = if tier.thorough() { 64 } else { 16 };
     sp.push(Space::new("chains", max_chain * 3 * 2, move |i, acc| {
         let depth = (i / 6) as usize + 1;
